@@ -101,6 +101,7 @@ impl World {
                 self.mux.pkts.insert(at, q.pkts.pop().unwrap());
             }
         }
+        if damage == 5 { let pk = &mut self.mux.pkts[first]; let off = if (pk[3] >> 4) & 3 == 3 { 5 + pk[4] as usize } else { 4 }; if off < 188 { pk[off] = 200; } }
         let n = self.mux.pkts.len() - first;
         if damage == 2 && n >= 2 { let k = first + 1 + rng.below(n as u64 - 1) as usize; self.mux.pkts.remove(k); }
         if damage == 3 && n >= 2 { let keep = first + rng.range(1, n as u64 - 1) as usize; self.mux.pkts.truncate(keep); }
@@ -260,6 +261,22 @@ pub fn gen_c05(tier: &str, seed: u64, emit: &mut dyn FnMut(String)) {
                 { let idx = w.mux.pkts.len(); let pl = rng.bytes(184); w.mux.data_packet(y, false, &pl, &mut rng); w.notes.push(format!("P|{}|{}", y, idx)); }
             }
         }
+        if i % 23 == 3 {
+            let l = w.live_pmt_pids(); if !l.is_empty() { let q = l[0];
+                { let m = w.pmts.get_mut(&q).unwrap(); m.version = (m.version + 1) & 31; }
+                let s1 = w.pmt_section(q, true, &mut rng);
+                let first = w.mux.pkts.len(); w.mux.psi(q, &s1, 0, 0, &mut rng);
+                let n = w.mux.pkts.len() - first;
+                if n >= 2 {
+                    let tail = w.mux.pkts.split_off(first + 1);
+                    let d = w.pmt_desc(q); let v = w.pmts[&q].version;
+                    w.notes.push(format!("T|{}|{}|{}|dmg|{}|{}", q, first, first, v, d));
+                    w.bump_pmt(q, &mut rng); w.send_pmt(q, "new", 0, false, &mut rng);
+                    for p in tail { w.mux.pkts.push(p); }
+                    w.probes(&mut rng);
+                } else { w.mux.pkts.truncate(first); }
+            }
+        }
         if i % 23 == 19 && w.live_pmt_pids().len() >= 2 {
             // the PAT drops program 2; its map PID X is later announced as an elementary stream of program 1; then the PAT
             // changes again without mentioning X: X stays with the stream handler
@@ -382,8 +399,9 @@ pub fn gen_c11(tier: &str, seed: u64, emit: &mut dyn FnMut(String)) {
         let pmt_pid = w.live_pmt_pids()[0];
         if !(first_is_damaged && target_pat) { w.send_pat("new", 0, &mut rng); }
         if !first_is_damaged { w.send_pmt(pmt_pid, "new", 0, big, &mut rng); w.probes(&mut rng);
+            if rng.chance(1, 3) { if target_pat { w.send_pat("rep", 0, &mut rng); } else { w.send_pmt(pmt_pid, "rep", 0, big, &mut rng); } }
             if target_pat { w.bump_pat(&mut rng); } else { w.bump_pmt(pmt_pid, &mut rng); } }
-        let dmg = 1 + (i / 4) as u64 % 4;
+        let dmg = 1 + (i / 4) as u64 % 5;
         if target_pat { w.send_pat("dmg", dmg, &mut rng); } else { w.send_pmt(pmt_pid, "dmg", dmg, big, &mut rng); }
         // intact copies: the same version first (finding F2 when the damaged start was recorded) ...
         for _ in 0..rng.range(1, 3) { if target_pat { w.send_pat("intact", 0, &mut rng); } else { w.send_pmt(pmt_pid, "intact", 0, big, &mut rng); } }
